@@ -89,6 +89,25 @@ pub enum Action {
     RevokeCo,
     /// remove co from the Space's owners (host API `put_space`)
     CoUnown,
+    /// the host sets the Space's `default_classification` (host API `put_space`):
+    /// every never-labelled element is effectively relabelled at once
+    SpDefSens,
+    SpDefSecret,
+    /// ... back to the bootstrap value
+    SpDefInternal,
+    /// bundle, max_classification=sensitive -> p1
+    GCeilSens,
+    /// revoke the newest still-active Delegation (the tail of a chain built in order)
+    RevokeDelNew,
+    /// revoke the second-oldest still-active Delegation (the middle link of a three-link chain)
+    RevokeDelMid,
+    /// Delegation p1 -> p2 that may be re-delegated: bundle, classifications=[public];
+    /// under the latest DelSys when there is one, else rooted in p1's own Grants
+    DelMid,
+    /// Re-delegation p2 -> co under the latest re-delegable p1 -> p2 Delegation: bundle, classifications=[public]
+    DelTail,
+    /// Delegation p1 -> p2: bundle, unscoped, valid_until in 2020 (a link that has expired)
+    DelExp,
     /// the n-th publish of a long version chain of the configuration's policy
     /// (not in the alphabets; used by the fixed policy-chain scenario). The
     /// decisive statement flips late: 1..=9 harmless, 10 denies p1 `read`,
@@ -101,6 +120,7 @@ pub const QUICK_ALPHABET: &[Action] = &[
     Action::GMask, Action::GExpired, Action::GWrite, Action::GrpAdd2, Action::GGroup, Action::Del, Action::DelKind,
     Action::DelSys, Action::ReDel, Action::Pol1, Action::Pol2, Action::RevokeOld, Action::RevokeDel,
     Action::Suspend1, Action::CoDel, Action::SuspendCo, Action::CoUnown, Action::GUpdP, Action::DelWide,
+    Action::SpDefSens, Action::SpDefSecret, Action::RevokeDelNew,
 ];
 
 pub const FULL_ALPHABET: &[Action] = &[
@@ -110,7 +130,12 @@ pub const FULL_ALPHABET: &[Action] = &[
     Action::RevokeOld, Action::RevokeNew, Action::RevokeDel, Action::Suspend1, Action::Suspend2,
     Action::CoDel, Action::SuspendCo, Action::RevokeCo, Action::CoUnown,
     Action::GUpdP, Action::GUpdExp, Action::GUpdPub, Action::DelWide,
+    Action::SpDefSens, Action::SpDefSecret, Action::GCeilSens,
+    Action::RevokeDelNew, Action::DelMid, Action::DelTail, Action::DelExp,
 ];
+
+/// Actions only the fixed scenarios use (replays name them).
+pub const SCENARIO_ONLY: &[Action] = &[Action::SpDefInternal, Action::RevokeDelMid];
 
 impl Action {
     pub fn name(&self) -> String {
@@ -120,7 +145,7 @@ impl Action {
         if let Some(n) = name.strip_prefix("PolChain(").and_then(|r| r.strip_suffix(')')) {
             return n.parse().ok().map(Action::PolChain);
         }
-        FULL_ALPHABET.iter().copied().find(|a| a.name() == name)
+        FULL_ALPHABET.iter().chain(SCENARIO_ONLY).copied().find(|a| a.name() == name)
     }
 }
 
@@ -145,11 +170,13 @@ pub struct Cfg {
     pub minted: Vec<Option<u64>>,
     /// logical key -> element id on this Nexus
     pub id_of: BTreeMap<String, String>,
+    /// the Space's `default_classification` when the configuration was opened
+    pub space_default_at_open: String,
 }
 
 impl Cfg {
     pub async fn open(nexus: &CognitiveNexus, tag: &str, id_of: &BTreeMap<String, String>) -> Cfg {
-        let cfg = Cfg {
+        let mut cfg = Cfg {
             tag: tag.to_string(),
             principal: [
                 SYSTEM_PRINCIPAL.to_string(),
@@ -165,6 +192,7 @@ impl Cfg {
             policy_bound: false,
             minted: Vec::new(),
             id_of: id_of.clone(),
+            space_default_at_open: String::new(),
         };
         for who in 1..4 {
             nexus
@@ -183,6 +211,12 @@ impl Cfg {
         let mut space = nexus.store.get_space(DEFAULT_SPACE).await.expect("machinery: get_space");
         space.owners.push(cfg.principal[3].clone());
         nexus.store.put_space(&space).await.expect("machinery: put_space");
+        cfg.space_default_at_open = space.default_classification.clone();
+        // (several configurations may be open on one Nexus: the Space default is shared)
+        cfg.model.space_default = match space.default_classification.as_str() {
+            "internal" => String::new(),
+            other => other.to_string(),
+        };
         cfg
     }
 
@@ -199,6 +233,7 @@ impl Cfg {
             policy_bound: false,
             minted: Vec::new(),
             id_of: BTreeMap::new(),
+            space_default_at_open: String::new(),
         }
     }
 
@@ -206,11 +241,45 @@ impl Cfg {
     /// same Nexus starts from "no policy bound".
     pub async fn close(&mut self, nexus: &CognitiveNexus) {
         let mut space = nexus.store.get_space(DEFAULT_SPACE).await.expect("machinery: get_space");
-        space.default_policy_id = String::new();
+        if self.policy_bound {
+            space.default_policy_id = String::new();
+        }
+        space.default_classification = self.space_default_at_open.clone();
         let co = self.principal[3].clone();
         space.owners.retain(|o| *o != co);
         nexus.store.put_space(&space).await.expect("machinery: put_space");
         self.policy_bound = false;
+    }
+
+    /// The host sets the Space's default classification ("" = back to `internal`).
+    pub async fn set_space_default(&mut self, nexus: Option<&CognitiveNexus>, label: &str) -> bool {
+        if self.model.default_class() == (if label.is_empty() { "internal" } else { label }) {
+            return false;
+        }
+        self.model.space_default = if label == "internal" { String::new() } else { label.to_string() };
+        if let Some(nexus) = nexus {
+            let mut space = nexus.store.get_space(DEFAULT_SPACE).await.expect("machinery: get_space");
+            space.default_classification = if label.is_empty() { "internal".to_string() } else { label.to_string() };
+            nexus.store.put_space(&space).await.expect("machinery: put_space");
+        }
+        true
+    }
+
+    /// A Grant / Delegation / policy version outside the action alphabet (for
+    /// the parts that enumerate their own authority bundles).
+    pub async fn add_grant(&mut self, nexus: Option<&CognitiveNexus>, g: MGrant) {
+        self.grant(nexus, g).await
+    }
+    pub async fn add_delegation(&mut self, nexus: Option<&CognitiveNexus>, d: MDeleg) {
+        self.delegate(nexus, d).await
+    }
+    pub async fn publish_statements(&mut self, nexus: Option<&CognitiveNexus>, stmts: Vec<MStmt>) {
+        self.publish(nexus, stmts).await
+    }
+
+    /// The `kip:delegation:<n>` ids of a chain of `model.delegs` indexes.
+    pub fn chain_ids(&self, chain: &[usize]) -> Vec<String> {
+        chain.iter().map(|i| delegation_id(self.deleg_rows[*i])).collect()
     }
 
     fn scope_impl(&self, s: &Scope) -> AuthorityScope {
@@ -478,8 +547,47 @@ impl Cfg {
                 }
                 self.model.grants[i].active = false;
             }
-            Action::RevokeDel => {
-                let Some(i) = self.model.delegs.iter().position(|d| d.active) else { return false };
+            Action::SpDefSens => return self.set_space_default(nexus, "sensitive").await,
+            Action::SpDefSecret => return self.set_space_default(nexus, "secret").await,
+            Action::SpDefInternal => return self.set_space_default(nexus, "internal").await,
+            Action::GCeilSens => {
+                let c = Cons { max_class: "sensitive".into(), ..Default::default() };
+                self.grant(nexus, g(Scope::default(), bundle, Cond::default(), c, false, 1, false)).await
+            }
+            Action::DelMid => {
+                let parent = match self.model.delegs.iter().rposition(|d| d.from == 0 && d.to == 1) {
+                    Some(i) => Parent::Deleg(i),
+                    None => Parent::None,
+                };
+                self.delegate(nexus, MDeleg {
+                    from: 1, to: 2, actions: bundle, scope: public, cond: Cond::default(),
+                    cons: Cons::default(), parent, may_redelegate: true, active: true,
+                }).await
+            }
+            Action::DelTail => {
+                let parent = match self.model.delegs.iter().rposition(|d| d.from == 1 && d.to == 2 && d.may_redelegate) {
+                    Some(i) => Parent::Deleg(i),
+                    None => Parent::Missing,
+                };
+                self.delegate(nexus, MDeleg {
+                    from: 2, to: 3, actions: bundle, scope: public, cond: Cond::default(),
+                    cons: Cons::default(), parent, may_redelegate: false, active: true,
+                }).await
+            }
+            Action::DelExp => {
+                let c = Cond { valid_until: EXPIRED.into(), ..Default::default() };
+                self.delegate(nexus, MDeleg {
+                    from: 1, to: 2, actions: bundle, scope: Scope::default(), cond: c,
+                    cons: Cons::default(), parent: Parent::None, may_redelegate: false, active: true,
+                }).await
+            }
+            Action::RevokeDel | Action::RevokeDelNew | Action::RevokeDelMid => {
+                let pick = match action {
+                    Action::RevokeDel => self.model.delegs.iter().position(|d| d.active),
+                    Action::RevokeDelNew => self.model.delegs.iter().rposition(|d| d.active),
+                    _ => self.model.delegs.iter().enumerate().filter(|(_, d)| d.active).map(|(i, _)| i).nth(1),
+                };
+                let Some(i) = pick else { return false };
                 if let Some(nexus) = nexus {
                     nexus.governance().revoke_delegation(self.deleg_rows[i], SYSTEM_PRINCIPAL).await.expect("machinery: revoke_delegation");
                 }
